@@ -1096,7 +1096,7 @@ fn lower_expr_with_args(
                 return None;
             }
             Some(ast::Expr::EString {
-                value: value.to_string(),
+                value: unescape_string_literal(value),
                 astptr,
             })
         }
@@ -2019,7 +2019,7 @@ fn lower_pat(ctx: &mut LowerCtx, node: cst::Pattern) -> Option<ast::Pat> {
                 return None;
             };
             Some(ast::Pat::PString {
-                value: value.to_string(),
+                value: unescape_string_literal(value),
                 astptr,
             })
         }
@@ -2129,4 +2129,39 @@ fn lower_path(ctx: &mut LowerCtx, path: &cst::Path) -> Option<ast::Path> {
     } else {
         Some(ast::Path::new(segments))
     }
+}
+
+/// The characters a string literal denotes: the lexer accepts the JSON escape
+/// sequences `\" \\ \/ \b \f \n \r \t \uXXXX` between the quotes.
+fn unescape_string_literal(text: &str) -> String {
+    let mut out = String::with_capacity(text.len());
+    let mut chars = text.chars();
+    while let Some(ch) = chars.next() {
+        if ch != '\\' {
+            out.push(ch);
+            continue;
+        }
+        match chars.next() {
+            Some('b') => out.push('\u{8}'),
+            Some('f') => out.push('\u{c}'),
+            Some('n') => out.push('\n'),
+            Some('r') => out.push('\r'),
+            Some('t') => out.push('\t'),
+            Some('u') => {
+                let hex: String = chars.by_ref().take(4).collect();
+                match u32::from_str_radix(&hex, 16).ok().and_then(char::from_u32) {
+                    Some(decoded) => out.push(decoded),
+                    // a lone surrogate is not a character; keep the spelling
+                    None => {
+                        out.push_str("\\u");
+                        out.push_str(&hex);
+                    }
+                }
+            }
+            // `\"`, `\\` and `\/` denote the character itself
+            Some(other) => out.push(other),
+            None => out.push('\\'),
+        }
+    }
+    out
 }
